@@ -554,7 +554,9 @@ def install_rx_hooks(interp, log=None):
         def hook(interp_, args, kwargs):
             rx, subj = args[0], args[1] if len(args) > 1 else None
             if is_abstract(subj):
-                return AbsMatch(rx, method, subj, log)
+                m_ = AbsMatch(rx, method, subj, log)
+                m_.pos = args[2] if len(args) > 2 else kwargs.get('pos', 0)
+                return m_
             r = getattr(rx.compiled(), method)(*args[1:], **kwargs)
             return r
         return hook
